@@ -53,6 +53,26 @@ void apply_faults(Rng &rf, Bytes &doc, int count, std::vector<std::string> &faul
 Bytes deep_document(Rng &rd, int &root_kind, std::vector<std::string> &faults, int &need) {
     // nesting-resource exhaustion (F6): arrays nested around the 255 limit, objects nested beyond max_depth
     Bytes doc;
+    if (rd.chance(1, 3)) {
+        // objects and arrays interleaved: the object count sits around max_depth / 255, and the deepest object may be an
+        // array element or a field value (the two are entered on different paths of the state machine)
+        int nobj = 2 + (int)rd.below(12);
+        if (rd.chance(1, 2)) { static const int T[] = {9, 10, 11, 16, 64, 128, 253, 254, 255, 256, 257}; nobj = T[rd.below(11)]; }
+        root_kind = rd.chance(1, 4) ? 1 : 0;
+        std::vector<uint8_t> closers;
+        if (root_kind) { doc.push_back(0x42); closers.push_back(0x43); }
+        bool in_array = root_kind != 0;
+        int narr = 0;
+        for (int i = 0; i < nobj; i++) {
+            if (i > 0 && !in_array) { doc.push_back(0x14); doc.push_back(0x01); doc.push_back('a'); }
+            if (i > 0 && rd.chance(1, 3)) { int k = 1 + (int)rd.below(3); for (int j = 0; j < k; j++) { doc.push_back(0x42); closers.push_back(0x43); narr++; } in_array = true; }
+            doc.push_back(0x40); closers.push_back(0x41); in_array = false;
+        }
+        for (size_t i = closers.size(); i-- > 0;) doc.push_back(closers[i]);
+        need = nobj + (root_kind ? 1 : 0);
+        faults.push_back(fmt("F6:mixed objects=%d arrays=%d", nobj, narr));
+        return doc;
+    }
     if (rd.chance(1, 2)) {
         int n = 250 + (int)rd.below(10);         // 250..259 nested arrays: 256+ must raise MAX_DEPTH_ARRAY
         bool in_obj = rd.chance(1, 2);
